@@ -32,9 +32,8 @@ def pool_off():
     L.detsim_install(0)
 
 
-def pool_on(cfg, explicit=None, ordered=False):
+def pool_on(cfg, explicit=None):
     L.detsim_reset_trace()
-    L.detsim_set_ordered(1 if ordered else 0)
     if explicit is not None:
         flat = [len(explicit)]
         for d in explicit:
@@ -151,7 +150,7 @@ def gen_plan(seed, idx):
             if i >= 1 and inplace and args[0].get("kind") == "masked" and e["args"][0] in PT.ARRAYS and r.chance(0.3):
                 k = "unmasked"     # the path only a masked in-place left-hand side has: make it common enough
             if (i >= 1 and inplace and args[0].get("kind") == "masked" and e["args"][0] == t and mismatch_at < 0
-                    and k in ("direct", "masked") and not DIVLIKE.search(e["name"]) and r.chance(0.25)):
+                    and k in ("direct", "masked") and r.chance(0.25)):
                 k = "overlap"      # another masked reference (other positions) into the left-hand side's own storage
             if k == "unmasked":
                 # right-hand side of unmasked length for a masked in-place left-hand side
@@ -503,8 +502,7 @@ def entry_label(e):
 
 
 def run_label(plan):
-    """entry label of a run; runs whose operands overlap in storage form a class of their own (known finding)"""
-    return entry_label(plan["entry"]) + ("[overlapping-views]" if any(a.get("kind") == "overlap" for a in plan["args"]) else "")
+    return entry_label(plan["entry"])
 
 
 def kinds_label(plan):
@@ -579,8 +577,8 @@ def element_check(plan, wb, resb, positions, stats):
         # post-state of every array argument at this position
         for i in arr_args:
             a = plan["args"][i]
-            if a["kind"] == "alias":
-                continue
+            if a["kind"] in ("alias", "overlap"):
+                continue        # (an overlapping view shows the destination's storage: its post-state is the destination's)
             q = p
             if a["kind"] == "unmasked":
                 q = wc.maskpos[0][p]
@@ -616,7 +614,7 @@ def scalar_binding_check(plan, wb, resb, positions, stats):
     tn = type(resb).__name__
     if tn not in PT.ARRAYS or len(resb) != n or e["name"].startswith("__i"):
         return None
-    if any(a.get("kind") == "unmasked" for a in plan["args"]):
+    if any(a.get("kind") in ("unmasked", "overlap") for a in plan["args"]):
         return None
     rt = PT.ARRAYS[tn]
     wc = World(plan)
@@ -752,10 +750,7 @@ def execute(plan, explicit=None):
     ka, ra = run_world(plan, wa)
     # B: simulated pool
     wb = World(plan)
-    # runs of the known finding 'overlapping views': the race is real but whether ThreadSanitizer sees it depends on
-    # the heap layout (2-byte elements, a handful of conflicting positions); O1 judges those runs, TSan is shown an
-    # ordered execution
-    pool_on(plan["pool"], explicit, ordered=any(a.get("kind") == "overlap" for a in plan["args"]))
+    pool_on(plan["pool"], explicit)
     kb, rb = run_world(plan, wb)
     pool_off()
     trace = pool_trace()
@@ -799,11 +794,9 @@ def execute(plan, explicit=None):
                      "%r (no pool) vs %r (simulated pool)" % (wa.args[0], wb.args[0]))
         if mism and (type(rb).__name__ in PT.ARRAYS or rb is None) and trace:
             fail("o6-length-mismatch/accepted", "argument arrays of different length were accepted by a dispatched operation")
-        overlap = any(a.get("kind") == "overlap" for a in plan["args"])
-        if overlap:
-            # element-wise meaning is order-defined only (position i reads what position j writes): O1, O6 and TSan judge
+        if any(a.get("kind") == "overlap" for a in plan["args"]):
             stats["probe.inplace_operand_overlaps_destination"] = 1
-        if out["verdict"] == "ok" and not mism and not overlap:
+        if out["verdict"] == "ok" and not mism:
             n = plan["n"]
             bad = element_check(plan, wb, rb, o2_positions(plan, trace, n), stats)
             if bad:
